@@ -45,6 +45,6 @@ def cases(tier, seed, rng):
     return [Case(history(rng, tier), 'gen:tree') for _ in range(n)]
 
 def nontrivial(case, tags):
-    return any(t == 'dump.after_reopen' for t in tags)
+    return any(t.startswith('dump.after_reopen') for t in tags)
 def signature(f):
     return '%s:%s:%s' % (f.kind, f.tag(), f.rule())
